@@ -80,6 +80,7 @@ fn witness(ob: &str, f: &str, input: String, observed: String, required: &str) {
 }
 
 fn main() {
+    vf_pipeline::start_watchdog(45);
     let mut cases = 0u64;
     // the order matters for state that could leak from one compilation to the next: V1, then V3, then V2 scripts
     for name in ["plain", "with_metadata", "with_datum", "with_mint", "mint_meta", "mint_v1", "mint_v3", "mint_v2"] {
@@ -97,6 +98,7 @@ fn main() {
                 let mut c = compiler(a, b, extra);
                 if mainnet { c.pparams.network = tx3_cardano::Network::Mainnet; }
                 let want_net = c.pparams.network;
+                vf_pipeline::begin_case("consistency template".to_string());
                 let r = pollster::block_on(tx3_resolver::resolve_tx(AnyTir::V1Beta0(tx.clone()), &args, &mut c, &store, 10));
                 let x = match r { Ok(x) => x, Err(e) => { println!("VERIF-NOTE {input}: did not resolve: {e}"); continue; } };
                 let dec: Result<primitives::Tx, _> = tx3_cardano::pallas::codec::minicbor::decode(&x.payload);
@@ -150,6 +152,7 @@ fn main() {
                 // reproducibility: same reduced template, same compiler configuration, twice
                 let mut c2 = compiler(a, b, extra);
                 if mainnet { c2.pparams.network = tx3_cardano::Network::Mainnet; }
+                vf_pipeline::begin_case("consistency template (second compilation)".to_string());
                 let again = pollster::block_on(tx3_resolver::resolve_tx(AnyTir::V1Beta0(tx), &args, &mut c2, &store, 10));
                 match again {
                     Ok(y) => if y.payload != x.payload { witness("cardano_ops/Compiler::compile#reproducible", "compile", input.clone(), "payloads differ".into(), "byte-identical payloads"); },
